@@ -2094,11 +2094,22 @@ class DensityMatrixMixer(Mixer):
         VH = VH.gauge_total_charge(0, qtotal_R)
 
         # calculate S = U^H theta V
+        theta_full = theta
         theta = npc.tensordot(U.conj(), theta, axes=['(vL*.p0*)', '(vL.p0)'])  # axes 0, 0
         theta = npc.tensordot(theta, VH.conj(), axes=['(p1.vR)', '(p1*.vR*)'])  # axes 1, 1
         theta.ireplace_labels(['vR*', 'vL*'], ['vL', 'vR'])
+        norm = theta.norm()
+        if norm <= 1.0e-14 * theta_full.norm():
+            # `U` and `VH` are truncated independently of each other. If `chi_max` cuts through degenerate
+            # Schmidt values (e.g. ``chi_max=1`` for a singlet), they can select subspaces which are not
+            # connected by `theta`, such that ``U^H theta V`` vanishes.
+            # In that case, fall back to a plain (truncated) SVD of `theta` without mixing on this bond.
+            U, S, VH, err, _ = svd_theta(
+                theta_full, engine.trunc_params, qtotal_LR=[qtotal_L, qtotal_R], inner_labels=['vR', 'vL']
+            )
+            return U, S, VH, err, S
         # normalize `S` (as in svd_theta) to avoid blowing up numbers
-        theta /= theta.norm()  # norm(singular values) = norm(whole array)
+        theta /= norm  # norm(singular values) = norm(whole array)
         S_a = S_a[keep_L]
         assert np.all(theta.qtotal == 0)
         return U, theta, VH, err_L + err_R, S_a
